@@ -339,7 +339,8 @@ def _add(module: Module, val: ModuleAttr) -> ModuleAttr:
 
     # If the name is being re-used, drop its former holder from whichever container has it.
     # It may have been an attribute of another kind.
-    if val.name in module.namespace:
+    former = module.namespace.get(val.name, None)
+    if former is not None:
         for ctr in (
             module.ports,
             module.signals,
@@ -349,6 +350,9 @@ def _add(module: Module, val: ModuleAttr) -> ModuleAttr:
             module.bundles,
         ):
             ctr.pop(val.name, None)
+        if former is not val:
+            # No longer ours. Connections still made to it are to an orphan.
+            former._parent_module = None
 
     # Add it to the module namespace, and the type-specific container
     type_ctr[val.name] = val
